@@ -133,6 +133,10 @@ def step(ins, regs):
         return algopy.logdet(regs[ins[1]])
     if op == 'qr':
         return algopy.qr(regs[ins[1]])[ins[2]]
+    if op == 'qr_twice':      # one factorisation, the SAME output taken out of the result tuple twice (two getitem nodes on one tuple node)
+        t = algopy.qr(regs[ins[1]])
+        k = ins[2]
+        return t[k] * 2.0 + t[k]
     if op == 'qr_full':
         a = regs[ins[1]]
         if ins[2] == 0:
@@ -318,7 +322,7 @@ def precond(ins, regs):
             if _is_cplx(m) or _is_cplx(b):
                 return False
             return bool(_smin(m) >= 0.2)
-        if op in ('qr', 'qr_full'):
+        if op in ('qr', 'qr_full', 'qr_twice'):
             m = np.asarray(regs[ins[1]])
             if m.ndim != 2 or _is_cplx(m):
                 return False
@@ -418,7 +422,7 @@ def _magnitude_ok(v):
 
 FAMILIES_ALL = ['un', 'un', 'kink', 'special', 'unp', 'bin', 'bin', 'bcast', 'binc', 'binc', 'pow', 'neg', 'get', 'get', 'T', 'reshape',
                 'buf', 'set', 'set', 'rmw', 'rmw', 'sum', 'prod', 'trace', 'dot', 'dot', 'dotc', 'outer', 'inv', 'solve', 'det',
-                'logdet', 'qr', 'chol', 'eigh', 'svd', 'lu', 'fft', 'tile', 'diag', 'symvec', 'vecsym', 'cplx']
+                'logdet', 'qr', 'chol', 'eigh', 'svd', 'lu', 'fft', 'tile', 'diag', 'symvec', 'vecsym', 'cplx', 'bufdet']
 FAMILIES_FWD_ONLY = ['unfwd', 'minmax', 'tri', 'abs', 'expm', 'svdfull', 'umax', 'powreg', 'iop', 'solvec', 'shift', 'rpowc', 'eighraw']
 FAMILIES_POLY = ['un', 'bin', 'bin', 'bcast', 'binc', 'binc', 'pow', 'neg', 'get', 'get', 'T', 'reshape', 'buf', 'set', 'rmw', 'sum', 'prod',
                  'trace', 'dot', 'dot', 'dotc', 'outer', 'tile', 'diag']
@@ -561,7 +565,8 @@ def _basic_index(draw, shape):
 
 @st.composite
 def programs(draw, n_inputs=(1, 2), max_len=8, families=None, out='any', K=4, in_rank=(0, 1, 2), max_side=3,
-             allow_set_broadcast=True, allow_ndim_dot=False, min_len=1, first=None, allow_ones=True, raw_vectors=True, poly=False, kinks_ok=False):
+             allow_set_broadcast=True, allow_ndim_dot=False, min_len=1, first=None, allow_ones=True, raw_vectors=True, poly=False, kinks_ok=False,
+             list_index=False):
     """draw (inputs' probe points, program).  Returns dict(pts=[array (K,)+shape ...], prog=[...], out=reg)."""
     fams = list(families or FAMILIES_ALL)
     nin = draw(st.integers(n_inputs[0], n_inputs[1]))
@@ -593,6 +598,7 @@ def programs(draw, n_inputs=(1, 2), max_len=8, families=None, out='any', K=4, in
     S.raw_vectors = raw_vectors
     S.kinks_ok = kinks_ok   # metamorphic forward checks do not need smoothness: kink points (abs(0), ties of min/max) are admitted
     S.poly = poly      # restrict to the polynomial instruction subset (exact analytic derivatives exist)
+    S.list_index = list_index      # index lists in getitem (replay check only)
     L = draw(st.integers(min_len, max_len))
     if first is not None:
         _emit_family(draw, S, first, allow_set_broadcast, allow_ndim_dot, allow_ones)
@@ -611,7 +617,7 @@ FIRST_INPUT = {'inv': 'regular', 'det': 'regular', 'logdet': 'posdet', 'solve': 
                'chol': 'square', 'eigh': 'gapsym', 'svd': 'svd', 'trace': 'matrix', 'T': 'matrix', 'diag': 'vecorsquare',
                'symvec': 'square', 'outer': 'vector', 'dot': 'vecormat', 'dotc': 'vecormat', 'prod': 'vector', 'tile': 'vecormat',
                'sum': 'vecormat', 'reshape': 'vecormat', 'get': 'vecormat', 'fft': 'vecormat', 'tri': 'matrix',
-               'expm': 'square', 'svdfull': 'svd', 'minmax': 'vecormat', 'umax': 'vector', 'kink': 'awayzero', 'abs': 'awayzero', 'pow': 'withzeros', 'special': 'unitinterval', 'unp': 'unitinterval', 'unfwd': 'unitinterval', 'dotnd': 'cube', 'eig': 'realeig', 'powreg': 'unitinterval', 'solvec': 'regular', 'iop': 'vecormat', 'rpowc': 'vecormat', 'eighraw': 'square', 'vec2lin': 'vecgapsym', 'umaxtie': 'tievector', 'vecsym': 'vec36', 'cplx': 'vecormat'}
+               'expm': 'square', 'svdfull': 'svd', 'minmax': 'vecormat', 'umax': 'vector', 'kink': 'awayzero', 'abs': 'awayzero', 'pow': 'withzeros', 'special': 'unitinterval', 'unp': 'unitinterval', 'unfwd': 'unitinterval', 'dotnd': 'cube', 'eig': 'realeig', 'powreg': 'unitinterval', 'solvec': 'regular', 'iop': 'vecormat', 'rpowc': 'vecormat', 'eighraw': 'square', 'vec2lin': 'vecgapsym', 'umaxtie': 'tievector', 'vecsym': 'vec36', 'cplx': 'vecormat', 'bufdet': 'regular'}
 
 
 @st.composite
@@ -887,6 +893,11 @@ def _emit_family_impl(draw, S, fam, allow_set_broadcast=True, allow_ndim_dot=Fal
         a = _pick(draw, S, lambda r: S.ndim(r) >= 1)
         if a is None:
             return False
+        if getattr(S, 'list_index', False) and draw(st.integers(0, 4)) == 0:
+            # an index list on the first axis (NumPy: a copy of the selected rows, in the listed order; no repetitions here)
+            n = S.shape(a)[0]
+            sel = draw(st.lists(st.integers(0, n - 1), min_size=1, max_size=n, unique=True))
+            return S.try_emit(['get', a, list(sel)])
         idx = _basic_index(draw, S.shape(a))
         return S.try_emit(['get', a, idx])
     if fam == 'T':
@@ -1107,7 +1118,7 @@ def _emit_family_impl(draw, S, fam, allow_set_broadcast=True, allow_ndim_dot=Fal
         a = _pick(draw, S, lambda r: S.ndim(r) == 2 and not S.cplx(r))
         if a is None:
             return False
-        which = draw(st.sampled_from(['qr', 'qr', 'qr_full']))
+        which = draw(st.sampled_from(['qr', 'qr', 'qr_full', 'qr_twice']))
         if draw(st.integers(0, 2)) == 0 and S.try_emit(['T', a]):
             a = S.nreg() - 1       # Fortran-ordered view as operand
         return S.try_emit([which, a, draw(st.sampled_from([0, 1]))])
@@ -1303,6 +1314,29 @@ def _emit_family_impl(draw, S, fam, allow_set_broadcast=True, allow_ndim_dot=Fal
         if a is None:
             return False
         return S.try_emit(['diag', a])
+    if fam == 'bufdet':
+        # the determinant of ONE buffer taken twice with an in-place write in between (anything a factorisation keeps per operand
+        # object must not survive the write)
+        a = _pick(draw, S, lambda r: S.ndim(r) == 2 and S.shape(r)[0] == S.shape(r)[1] and real(r) and all(precond(['det', r], S.regs[k]) for k in range(S.K)))
+        if a is None:
+            return False
+        n = S.shape(a)[0]
+        if not (S.try_emit(['zeros', (n, n), a]) and S.try_emit(['set', S.nreg() - 1, Ellipsis, a])):
+            return False
+        b = S.nreg() - 1
+        if not S.try_emit(['det', b]):
+            return False
+        d1 = S.nreg() - 1
+        i = (draw(st.integers(0, n - 1)), draw(st.integers(0, n - 1)))
+        for c in (3.0, -3.0, 5.0):
+            if S.try_emit(['setc', b, i, c]):
+                break
+        else:
+            return False
+        b2 = S.nreg() - 1
+        if not S.try_emit(['det', b2]):
+            return False
+        return S.try_emit(['bin', draw(st.sampled_from(['add', 'mul', 'sub'])), d1, S.nreg() - 1])
     if fam == 'vecsym':
         # vector of n(n+1)/2 entries -> symmetric matrix, then consumed NON-symmetrically (a symmetric consumer hides a pullback
         # that treats the two off-diagonal copies differently)
@@ -1477,14 +1511,14 @@ def features(case):
             f.add(op)
         if op in ('real', 'imag', 'conj') and not any(q[0] in ('fft', 'ifft') for q in prog):
             f.add('real/imag/conj-of-real-value')
-        if op in ('inv', 'solve', 'det', 'logdet', 'qr', 'qr_full', 'chol_spd', 'eigh_sym', 'eigh_fun', 'svd_s', 'lu', 'expm', 'svd_full', 'eig_val', 'eigh_raw'):
+        if op in ('inv', 'solve', 'det', 'logdet', 'qr', 'qr_full', 'qr_twice', 'chol_spd', 'eigh_sym', 'eigh_fun', 'svd_s', 'lu', 'expm', 'svd_full', 'eig_val', 'eigh_raw'):
             f.add('linalg')
             f.add('linalg:' + op)
         if op in ('fft', 'ifft'):
             f.add('complex-intermediate')
         if op in ('reshape', 'T', 'tile', 'diag', 'symvec', 'sum', 'prod', 'trace'):
             f.add(op)
-        if op == 'un' and ins[1] in UN_NONLINEAR or op in ('unp', 'pow', 'powreg', 'dot', 'outer', 'inv', 'solve', 'det', 'logdet', 'prod', 'qr', 'qr_full',
+        if op == 'un' and ins[1] in UN_NONLINEAR or op in ('unp', 'pow', 'powreg', 'dot', 'outer', 'inv', 'solve', 'det', 'logdet', 'prod', 'qr', 'qr_full', 'qr_twice',
                                                           'chol_spd', 'eigh_sym', 'eigh_fun', 'svd_s', 'svd_full', 'lu', 'expm', 'eig_val', 'solvec', 'rpowc', 'eigh_raw') \
                 or (op == 'bin' and ins[1] in ('mul', 'div')) or (op == 'binc' and ins[1] == 'div' and ins[4] == 'l'):
             f.add('nonlinear')
